@@ -17,6 +17,9 @@ from .shapes import Shape
 from .worker import run_forked, run_pristine
 
 
+STAGE_NAMES = ["analysis", "store_inspect", "eval", "store_commit", "path_commit"]
+
+
 def store_conf(kind: str, root: str) -> Optional[Dict[str, Any]]:
     if kind == "local":
         return {"kind": "local", "internal_dir": os.path.join(root, "store", "internal"),
@@ -50,7 +53,7 @@ def build_segments(shape: Shape, hist: List[Dict[str, Any]], root: str, store_ki
     fail_state: Dict[str, str] = {}
     for (h, rec) in enumerate(hist):
         op = rec["op"]
-        if op in ("edit", "revert"):
+        if op in ("edit", "revert", "fail", "unfail"):
             continue
         if op == "restart":
             cur_pid = None
@@ -81,8 +84,12 @@ def build_segments(shape: Shape, hist: List[Dict[str, Any]], root: str, store_ki
         if fails != fail_state:
             cur["steps"].append({"op": "fail", "fail": fails, "h": h})
             fail_state = fails
-        st = {"op": "eval", "h": h, "style": rec["style"], "root": shape.root,
-              "module": mods[shape.root], "root_path": shape.root_path}
+        rootf = rec.get("root", shape.root)
+        rpath = [r["path"] for r in shape.roots if r["f"] == rootf][0]
+        st = {"op": "eval", "h": h, "style": rec["style"], "root": rootf,
+              "module": mods[rootf], "root_path": rpath}
+        if rec.get("stages", 5) < 5:
+            st["kwargs"] = {"dds_stages": STAGE_NAMES[: rec["stages"]]}
         if eval_kwargs and rec["style"] == "eval":
             st["kwargs"] = eval_kwargs
         cur["steps"].append(st)
